@@ -678,3 +678,29 @@ def staircase_bipartite(rng, sizes=None, noise=True):
         edges = [(v, u) for (u, v) in edges]
         nu, nv = nv, nu
     return nu, nv, edges, len(set(sizes)), match
+
+
+def pseudo_canonical(rng, psi, how=None):
+    """
+    Rescales the tensors of an MPS IN PLACE so that they satisfy NECESSARY conditions of a normalised canonical form without being isometries:
+    'frob-left' / 'frob-right': squared Frobenius norm of every tensor equals its left / right bond dimension (true for right- / left-canonical tensors);
+    'slice-left' / 'slice-right': every slice A[:, a, :] resp. A[:, :, b] has unit norm (hence the same Frobenius coincidence).
+    Anything that recognises 'already canonical' by such a coincidence is fooled; the state itself is an ordinary generic state. Returns the label.
+    """
+    how = how or str(rng.choice(['frob-left', 'frob-right', 'slice-left', 'slice-right']))
+    for i, A in enumerate(psi.A):
+        A = np.asarray(A, dtype=complex if np.iscomplexobj(A) else float)
+        ax = 1 if how.endswith('left') else 2
+        if how.startswith('frob'):
+            n = np.linalg.norm(A)
+            if n > 0:
+                A = A * (np.sqrt(A.shape[ax]) / n)
+        else:
+            for a in range(A.shape[ax]):
+                sl = [slice(None)] * 3
+                sl[ax] = a
+                n = np.linalg.norm(A[tuple(sl)])
+                if n > 0:
+                    A[tuple(sl)] = A[tuple(sl)] / n
+        psi.A[i] = A
+    return how
